@@ -47,3 +47,69 @@ package rtpfb
 //@ # safety only (property C02)
 //@ func convertCCFB
 //@   modifies *
+//@
+//@ # ---- the aggregating history (property C09): every sent packet gets the next counter value; a report lists the
+//@ # packets between the report cursor and the highest acknowledged one in send order, and the cursor moves past them,
+//@ # so no packet is reported twice
+//@ pred histInv(h *history) := h.packets != nil && h.twccToCounter != nil && h.ssrcSeqNrToCounter != nil && h.counter < (1 << 62)
+//@     && (h.highestAcked == 0 || h.highestAcked < h.counter)
+//@     && (forall c uint64 :: has(h.packets, c) ==> c < h.counter && h.packets[c] != nil && h.packets[c].SequenceNumber == c)
+//@
+//@ func (*history).addOutgoing
+//@   requires inv: histInv(h) && h.counter < (1 << 62) - 1
+//@   modifies h.counter, h.lock, mem map[uint16]uint64, mem map[ssrcSequenceNumber]uint64, mem map[uint64]*PacketReport
+//@   ensures inv: histInv(h)
+//@   ensures numbered: h.counter == old(h.counter) + 1 && has(h.packets, old(h.counter)) && fresh(h.packets[old(h.counter)])
+//@        && h.packets[old(h.counter)].SequenceNumber == old(h.counter) && h.packets[old(h.counter)].Size == size
+//@        && h.packets[old(h.counter)].Departure == departure && h.packets[old(h.counter)].SSRC == ssrc
+//@        && h.packets[old(h.counter)].RTPSequenceNumber == rtpSequenceNumber && !h.packets[old(h.counter)].Arrived
+//@   ensures others_kept: forall c uint64 :: c != old(h.counter) ==> (has(h.packets, c) <==> washas(h.packets, c)) && (has(h.packets, c) ==> h.packets[c] == wasat(h.packets, c))
+//@   ensures indexed: isTWCC ==> has(h.twccToCounter, twccSequenceNumber) && h.twccToCounter[twccSequenceNumber] == old(h.counter)
+//@   ensures cursors_kept: h.highestAcked == old(h.highestAcked) && h.nextReport == old(h.nextReport)
+//@
+//@ func (*history).onFeedback
+//@   requires inv: histInv(h)
+//@   modifies all PacketReport.Arrived, all PacketReport.Arrival, all PacketReport.ECN, h.highestAcked
+//@   ensures inv: histInv(h)
+//@   ensures unknown: !has(h.packets, counter) ==> !result1 && h.highestAcked == old(h.highestAcked)
+//@   ensures recorded: has(h.packets, counter) ==> result1 && h.packets[counter].Arrived == ack.arrived && h.packets[counter].Arrival == ack.arrival
+//@        && h.packets[counter].ECN == ack.ecn && result0 == ts.Sub(h.packets[counter].Departure)
+//@   ensures others_kept: forall c uint64 :: has(h.packets, c) && c != counter ==> h.packets[c].Arrived == old(h.packets[c].Arrived)
+//@        && h.packets[c].Arrival == old(h.packets[c].Arrival) && h.packets[c].ECN == old(h.packets[c].ECN)
+//@   ensures highest: h.highestAcked == ite(has(h.packets, counter) && ack.arrived && old(h.highestAcked) < counter, counter, old(h.highestAcked))
+//@
+//@ # the lookup tables only ever lose entries here; the packet records and cursors are untouched
+//@ func (*history).delete
+//@   requires in: p != nil && h.twccToCounter != nil && h.ssrcSeqNrToCounter != nil
+//@   modifies mem map[uint16]uint64, mem map[ssrcSequenceNumber]uint64
+//@
+//@ func (*history).cleanBefore
+//@   requires inv: histInv(h)
+//@   modifies h.cleanUntil, mem map[uint16]uint64, mem map[ssrcSequenceNumber]uint64
+//@   loop 1 invariant maps: histInv(h)
+//@
+//@ func (*history).buildReport
+//@   requires inv: histInv(h)
+//@   modifies h.nextReport, h.cleanUntil, h.lock, mem map[uint16]uint64, mem map[ssrcSequenceNumber]uint64
+//@   ensures inv: histInv(h)
+//@   ensures nothing_new: old(h.nextReport) > old(h.highestAcked) ==> result == nil && h.nextReport == old(h.nextReport)
+//@   ensures within_cursor_and_highest: forall j int :: 0 <= j && j < len(result) ==> old(h.nextReport) <= result[j].SequenceNumber && result[j].SequenceNumber <= h.highestAcked
+//@   ensures send_order: forall a int, b int :: 0 <= a && a < b && b < len(result) ==> result[a].SequenceNumber < result[b].SequenceNumber
+//@   ensures never_again: forall j int :: 0 <= j && j < len(result) ==> result[j].SequenceNumber < h.nextReport
+//@   ensures cursor_monotone: h.nextReport >= old(h.nextReport) && h.highestAcked == old(h.highestAcked)
+//@   ensures as_recorded: forall j int :: 0 <= j && j < len(result) ==> has(h.packets, result[j].SequenceNumber)
+//@        && result[j].Arrived == h.packets[result[j].SequenceNumber].Arrived && result[j].Arrival == h.packets[result[j].SequenceNumber].Arrival
+//@        && result[j].ECN == h.packets[result[j].SequenceNumber].ECN && result[j].Size == h.packets[result[j].SequenceNumber].Size
+//@        && result[j].Departure == h.packets[result[j].SequenceNumber].Departure && result[j].SSRC == h.packets[result[j].SequenceNumber].SSRC
+//@   ensures complete: forall c uint64 :: old(h.nextReport) <= c && c <= h.highestAcked && has(h.packets, c) ==>
+//@        exists j int :: 0 <= j && j < len(result) && result[j].SequenceNumber == c
+//@   loop 1 invariant shape: histInv(h) && h.highestAcked == old(h.highestAcked) && old(h.nextReport) <= i && i <= h.highestAcked + 1
+//@        && old(h.nextReport) <= h.nextReport && h.nextReport <= i && fresh(res) && 0 <= len(res)
+//@   loop 1 invariant listed: forall j int :: 0 <= j && j < len(res) ==> old(h.nextReport) <= res[j].SequenceNumber && res[j].SequenceNumber < i
+//@        && res[j].SequenceNumber < h.nextReport && has(h.packets, res[j].SequenceNumber)
+//@        && res[j].Arrived == h.packets[res[j].SequenceNumber].Arrived && res[j].Arrival == h.packets[res[j].SequenceNumber].Arrival
+//@        && res[j].ECN == h.packets[res[j].SequenceNumber].ECN && res[j].Size == h.packets[res[j].SequenceNumber].Size
+//@        && res[j].Departure == h.packets[res[j].SequenceNumber].Departure && res[j].SSRC == h.packets[res[j].SequenceNumber].SSRC
+//@   loop 1 invariant send_order: forall a int, b int :: 0 <= a && a < b && b < len(res) ==> res[a].SequenceNumber < res[b].SequenceNumber
+//@   loop 1 invariant complete: forall c uint64 :: old(h.nextReport) <= c && c < i && has(h.packets, c) ==> exists j int :: 0 <= j && j < len(res) && res[j].SequenceNumber == c
+//@   loop 1 decreases h.highestAcked + 1 - i
